@@ -231,6 +231,197 @@ theorem maximise_isothermal_cold (tol : Rat) (T H : List Rat) (u : ULevel) (qA :
         · exact foldl_max_ge_init (·.qPot) cs _
         · exact foldl_max_ge_mem (·.qPot) cs _ x hx
 
+/-! ### a utility whose band lies at or above the level where the demand starts -/
+
+/-- Like `maximise_covering_hot`, but the utility need not lie above the whole segment: it is enough that its
+    (shifted) band lies at or above a level `m` at or below which every decreasing interval of the heating
+    profile starts — rows above `m` carry no heating demand (hot streams supplied above the hottest cold
+    target). -/
+theorem maximise_covering_hot_from (tol : Rat) (htol : 0 ≤ tol) (T H : List Rat) (u : ULevel) (qA limit m : Rat)
+    (hm : m ≤ u.tt) (hts : u.tt ≤ u.ts)
+    (hstart : ∀ c ∈ candidates.cells' (T.zip H), c.1.2 ≠ c.2.2 → c.1.1 ≤ m)
+    (hlen : T.length = H.length) (hdesc : T.Pairwise (· > ·)) (hmono : H.Pairwise (· ≥ ·))
+    (hhead : H.head? = some limit) (hlast : ∃ z, H.getLast? = some z ∧ z < limit) (hq : tol < limit - qA) :
+    maximiseUtilityDuty tol T H u true qA = limit - qA := by
+  have hM : ∀ h ∈ H, h ≤ limit := le_head_of_desc H limit hmono hhead
+  have hmap : ((T.zip H).map (·.1)).Pairwise (· > ·) := by
+    rw [List.map_fst_zip (by omega)]; exact hdesc
+  obtain ⟨tU, tL, hL, hcell, hne⟩ := exists_top_cell T H limit hlen hmono hhead hlast
+  have htU : tU ≤ m := hstart _ hcell hne
+  have hlt : tL < tU := by have := cells_desc _ _ _ hmap hcell; simpa using this
+  have hc0 : ({ qPot := limit - qA, qCur := hL - qA, dtTar := u.tt - tL } : Cand) ∈ candidates tol T H u true qA := by
+    unfold candidates
+    apply List.mem_filterMap.mpr
+    refine ⟨((tU, limit), (tL, hL)), hcell, ?_⟩
+    simp only [if_true]
+    rw [if_pos ⟨hne, by linarith, hq⟩]
+  have hall : ∀ c ∈ candidates tol T H u true qA, 0 ≤ c.dtTar ∧ c.qPot ≤ limit - qA := by
+    intro c hc
+    have hb := (candidates_qPot tol T H u true qA limit hM c hc).2
+    refine ⟨?_, hb⟩
+    obtain ⟨tU', hU', tL', hL', hcell', _, e, _, _, hne'⟩ := candidate_hot tol T H u qA c hc
+    have h1 : tU' ≤ m := hstart _ hcell' hne'
+    have h2 : tL' < tU' := by have := cells_desc _ _ _ hmap hcell'; simpa using this
+    rw [e]; linarith
+  have hlen2 : ¬ T.length < 2 := by
+    intro hl
+    have : (T.zip H).length < 2 := by rw [List.length_zip]; omega
+    cases hz : T.zip H with
+    | nil => rw [hz] at hcell; simp [candidates.cells'] at hcell
+    | cons x l =>
+      cases l with
+      | nil => rw [hz] at hcell; simp [candidates.cells'] at hcell
+      | cons y l => rw [hz] at this; simp only [List.length_cons] at this; omega
+  unfold maximiseUtilityDuty
+  rw [if_neg hlen2]
+  cases hcs : candidates tol T H u true qA with
+  | nil => rw [hcs] at hc0; simp at hc0
+  | cons c cs =>
+    rw [hcs] at hc0 hall
+    simp only
+    have hdt : ¬ cs.foldl (fun m x => max m x.dtTar) c.dtTar < 0 := by
+      have h1 := foldl_max_ge_init (·.dtTar) cs c.dtTar
+      have h2 := (hall c (by simp)).1
+      intro h; linarith
+    rw [if_neg hdt]
+    rw [foldl_if_none (fun x => tol < -x.dtTar) _ (c :: cs) (fun x hx => by have := (hall x hx).1; intro h; linarith)]
+    simp only
+    apply le_antisymm
+    · exact foldl_max_le (·.qPot) (limit - qA) cs c.qPot (hall c (by simp)).2 (fun x hx => (hall x (by simp [hx])).2)
+    · rcases List.mem_cons.mp hc0 with h | h
+      · have : c.qPot = limit - qA := by rw [← h]
+        rw [← this]; exact foldl_max_ge_init (·.qPot) cs c.qPot
+      · exact foldl_max_ge_mem (·.qPot) cs c.qPot _ h
+
+/-- the cooling side: the utility's (shifted) band lies at or below a level `m` at or above which every
+    non-flat interval of the cooling profile ends -/
+theorem maximise_covering_cold_from (tol : Rat) (htol : 0 ≤ tol) (T H : List Rat) (u : ULevel) (qA limit m : Rat)
+    (hm : u.tt ≤ m) (hts : u.ts ≤ u.tt)
+    (hstart : ∀ c ∈ candidates.cells' (T.zip H), c.1.2 ≠ c.2.2 → m ≤ c.2.1)
+    (hlen : T.length = H.length) (hdesc : T.Pairwise (· > ·)) (hmono : H.Pairwise (· ≤ ·))
+    (hlastv : H.getLast? = some limit) (hhead : ∃ z, H.head? = some z ∧ z < limit) (hq : tol < limit - qA) :
+    maximiseUtilityDuty tol T H u false qA = limit - qA := by
+  have hM : ∀ h ∈ H, h ≤ limit := le_last_of_asc H limit hmono hlastv
+  have hmap : ((T.zip H).map (·.1)).Pairwise (· > ·) := by
+    rw [List.map_fst_zip (by omega)]; exact hdesc
+  obtain ⟨tU, hU, tL, hcell, hne⟩ := exists_bottom_cell T H limit hlen hmono hlastv hhead
+  have htL : m ≤ tL := hstart _ hcell hne
+  have hlt : tL < tU := by have := cells_desc _ _ _ hmap hcell; simpa using this
+  have hc0 : ({ qPot := limit - qA, qCur := hU - qA, dtTar := tU - u.tt } : Cand) ∈ candidates tol T H u false qA := by
+    unfold candidates
+    apply List.mem_filterMap.mpr
+    refine ⟨((tU, hU), (tL, limit)), hcell, ?_⟩
+    simp only [Bool.false_eq_true, if_false]
+    rw [if_pos ⟨fun h => hne h.symm, by linarith, hq⟩]
+  have hall : ∀ c ∈ candidates tol T H u false qA, 0 ≤ c.dtTar ∧ c.qPot ≤ limit - qA := by
+    intro c hc
+    have hb := (candidates_qPot tol T H u false qA limit hM c hc).2
+    refine ⟨?_, hb⟩
+    obtain ⟨tU', hU', tL', hL', hcell', _, e, _, _, hne'⟩ := candidate_cold tol T H u qA c hc
+    have h1 : m ≤ tL' := hstart _ hcell' (fun h => hne' h.symm)
+    have h2 : tL' < tU' := by have := cells_desc _ _ _ hmap hcell'; simpa using this
+    rw [e]; linarith
+  have hlen2 : ¬ T.length < 2 := by
+    intro hl
+    have : (T.zip H).length < 2 := by rw [List.length_zip]; omega
+    cases hz : T.zip H with
+    | nil => rw [hz] at hcell; simp [candidates.cells'] at hcell
+    | cons x l =>
+      cases l with
+      | nil => rw [hz] at hcell; simp [candidates.cells'] at hcell
+      | cons y l => rw [hz] at this; simp only [List.length_cons] at this; omega
+  unfold maximiseUtilityDuty
+  rw [if_neg hlen2]
+  cases hcs : candidates tol T H u false qA with
+  | nil => rw [hcs] at hc0; simp at hc0
+  | cons c cs =>
+    rw [hcs] at hc0 hall
+    simp only
+    have hdt : ¬ cs.foldl (fun m x => max m x.dtTar) c.dtTar < 0 := by
+      have h1 := foldl_max_ge_init (·.dtTar) cs c.dtTar
+      have h2 := (hall c (by simp)).1
+      intro h; linarith
+    rw [if_neg hdt]
+    rw [foldl_if_none (fun x => tol < -x.dtTar) _ (c :: cs) (fun x hx => by have := (hall x hx).1; intro h; linarith)]
+    simp only
+    apply le_antisymm
+    · exact foldl_max_le (·.qPot) (limit - qA) cs c.qPot (hall c (by simp)).2 (fun x hx => (hall x (by simp [hx])).2)
+    · rcases List.mem_cons.mp hc0 with h | h
+      · have : c.qPot = limit - qA := by rw [← h]
+        rw [← this]; exact foldl_max_ge_init (·.qPot) cs c.qPot
+      · exact foldl_max_ge_mem (·.qPot) cs c.qPot _ h
+
+theorem list_sum_nonneg : ∀ (l : List Rat), (∀ d ∈ l, 0 ≤ d) → 0 ≤ l.sum
+  | [], _ => by simp
+  | a :: l, h => by
+    simp only [List.sum_cons]
+    have := h a (by simp)
+    have := list_sum_nonneg l (fun d hd => h d (by simp [hd]))
+    linarith
+
+/-- the loop closes when ANY of its utilities takes whatever is left once it is reached — wherever it stands in
+    the processing order (either side) -/
+theorem assignLoop_closes_of_cover_mid (tol : Rat) (htol : 0 ≤ tol) (T H : List Rat) (isHot : Bool) (uc : ULevel) (limit : Rat)
+    (hM : ∀ h ∈ H, h ≤ limit)
+    (hstep : ∀ qA, tol < limit - qA → maximiseUtilityDuty tol T H uc isHot qA = limit - qA) (post : List ULevel) :
+    ∀ (pre : List ULevel) (qA : Rat), qA ≤ limit →
+      limit - tol ≤ qA + (assignLoop tol T H isHot limit qA (pre ++ uc :: post)).sum ∧
+      qA + (assignLoop tol T H isHot limit qA (pre ++ uc :: post)).sum ≤ limit := by
+  intro pre
+  induction pre with
+  | nil =>
+    intro qA hqA
+    have hb := assignLoop_bounds tol htol T H isHot limit limit hM (uc :: post) qA hqA
+    simp only [List.nil_append]
+    refine ⟨?_, by linarith [hb.2]⟩
+    simp only [assignLoop] at hb ⊢
+    by_cases hq : tol < limit - qA
+    · rw [hstep qA hq]
+      simp only [hq, if_true]
+      split_ifs with hstop
+      · simp only [List.sum_cons, sum_map_zero]; linarith
+      · have hb2 := assignLoop_bounds tol htol T H isHot limit limit hM post (qA + (limit - qA)) (by linarith)
+        have hnn : 0 ≤ (assignLoop tol T H isHot limit (qA + (limit - qA)) post).sum :=
+          list_sum_nonneg _ hb2.1
+        simp only [List.sum_cons]; linarith
+    · -- already within tol of the limit: whatever follows is non-negative
+      have hall : ∀ d ∈ (let q := maximiseUtilityDuty tol T H uc isHot qA
+                          let p : Rat × Rat := if tol < q then (q, qA + q) else (0, qA)
+                          if rabs (limit - p.2) < tol then p.1 :: post.map (fun _ => (0 : Rat))
+                          else p.1 :: assignLoop tol T H isHot limit p.2 post), 0 ≤ d := hb.1
+      have := list_sum_nonneg _ hall
+      simp only at this
+      linarith
+  | cons u pre ih =>
+    intro qA hqA
+    simp only [List.cons_append, assignLoop]
+    have hle := maximise_le tol T H u isHot qA limit hM hqA
+    by_cases hq : tol < maximiseUtilityDuty tol T H u isHot qA
+    · simp only [hq, if_true]
+      have hqA' : qA + maximiseUtilityDuty tol T H u isHot qA ≤ limit := by linarith
+      by_cases hstop : rabs (limit - (qA + maximiseUtilityDuty tol T H u isHot qA)) < tol
+      · rw [if_pos hstop]
+        simp only [List.sum_cons, sum_map_zero]
+        have : rabs (limit - (qA + maximiseUtilityDuty tol T H u isHot qA)) = limit - (qA + maximiseUtilityDuty tol T H u isHot qA) := by
+          unfold rabs; rw [if_neg (by linarith)]
+        rw [this] at hstop
+        constructor <;> linarith
+      · rw [if_neg hstop]
+        obtain ⟨a, b⟩ := ih _ hqA'
+        simp only [List.sum_cons]
+        constructor <;> linarith
+    · simp only [hq, if_false]
+      by_cases hstop : rabs (limit - qA) < tol
+      · rw [if_pos hstop]
+        simp only [List.sum_cons, sum_map_zero]
+        have : rabs (limit - qA) = limit - qA := by unfold rabs; rw [if_neg (by linarith)]
+        rw [this] at hstop
+        constructor <;> linarith
+      · rw [if_neg hstop]
+        obtain ⟨a, b⟩ := ih qA hqA
+        simp only [List.sum_cons]
+        constructor <;> linarith
+
 /-! ### gliding levels: the return-temperature limit -/
 
 theorem foldl_optmin_some (p : Cand → Prop) [DecidablePred p] (g : Cand → Rat) :
